@@ -9,6 +9,8 @@ import FlVerif.Lemmas.FormatInfix
 import FlVerif.Lemmas.CodeFunEval
 import FlVerif.Lemmas.CodeFunEvalParse
 import FlVerif.Lemmas.CodeBlockActFactory   -- the factories (`construct`, `copy`, `operators`, `functions`, `_precedence`)
+import FlVerif.Lemmas.CodeWave5Z            -- `format_infix`
+import FlVerif.Lemmas.CodeWave5ZLaw         -- `Node.value / prefix / infix / postfix`, `postfix_of_parse`
 
 /-! # C17 — Function formulas follow the documented precedence and associativity
 
@@ -125,6 +127,87 @@ theorem code_parsePostfix (tbl : Table) (formula : String) :
     | .error e => Gen.Code.Function_parse.run tbl formula {} = .error e.toPy
     | .ok r => ∃ σ, Gen.Code.Function_parse.run tbl formula {} = .ok σ ∧ σ.ret = some r.toNode :=
   CodeFn.code_parsePostfix tbl formula
+
+/-! ### `Function.format_infix` (the external of `code_toPostfix`) -/
+
+/-- what `format_infix` relies on in the operator names of the regenerated table: no name twice (they are the keys of a
+    dictionary), none empty (an empty alternative of the regular expression would match at every position), none with a
+    white-space character (the second substitution and `split()` would cut it in two) -/
+theorem table_symbolsPlain : Table.SymbolsPlain Gen.Tables.elements := by decide +kernel
+
+/-- **Tie A (code → model).**  `Gen.Code.Function_format_infix` is regenerated from the source of
+    `Function.format_infix` on every run: the set of the keys of the translated `FunctionFactory.operators()` with "(",
+    ")", ",", without `and` / `or`, sorted in descending order (all translated), then the two regular-expression
+    substitutions, whose meaning is written down independently of the model in `Op/PyExtWave5Z.lean` (alternation of
+    literals *in the given order*, first alternative that matches at the leftmost position; collapse of white-space runs
+    and `strip`).  For every table in which "(", ")", "," are not element names (`table_noPunct`) and the operator names
+    are plain (`table_symbolsPlain`) and every text, the function returns the tokens of the character-level model
+    `Op.formatInfix` joined by single blanks. -/
+theorem code_formatInfix (tbl : Table) (hT : tbl.NoPunct) (hS : tbl.SymbolsPlain) (formula : String) :
+    ∃ σ, Gen.Code.Function_format_infix.run tbl formula {} = .ok σ ∧
+      σ.ret = some (Py.joinSp (formatInfix tbl formula)) :=
+  CodeW5Z.code_formatInfix tbl hT hS formula
+
+/-- the external `cls.format_infix(_0)` ↦ `Op.formatInfix tbl _0` of `code_toPostfix` (a token list: the call followed
+    by `.split()`, `Op.splitWords`) **is the translated function** -/
+theorem formatInfix_external_is_code (tbl : Table) (hT : tbl.NoPunct) (hS : tbl.SymbolsPlain) (formula : String) :
+    ∃ σ s, Gen.Code.Function_format_infix.run tbl formula {} = .ok σ ∧ σ.ret = some s ∧
+      splitWords s = formatInfix tbl formula :=
+  CodeW5Z.formatInfix_external_is_code tbl hT hS formula
+
+/-- the order of the alternatives matters, so `reverse=True` does: with `**` before `*` the text `a**b` becomes
+    `a ** b`; in ascending order `*` comes first and cuts `**` in two -/
+theorem reverse_order_needed :
+    Py.W5Z.subAlt (Py.sortedDesc ["*", "**"]) "a**b" = "a ** b" ∧
+    Py.W5Z.subAlt (Py.sortedAsc ["*", "**"]) "a**b" = "a *  * b" ∧
+    Py.W5Z.collapseStrip (Py.W5Z.subAlt (Py.sortedAsc ["*", "**"]) "a**b") = "a * * b" :=
+  CodeW5Z.reverse_order_needed
+
+/-! ### the renderings of a tree: `Function.Node.value`, `prefix`, `infix`, `postfix`
+
+`str` is the text of a float (`Op.str`, tied in `C14.code_opStr`); the models `Op.NodeText.*` are defined on the node
+record itself, so the ties hold for every tree, also one that `Function.parse` cannot build; `node = none` is the call
+without argument (the method restarts on `self`). -/
+
+/-- **Tie A (code → model).**  `Node.value()`: the element's name, else the variable name unless it is empty, else the
+    number. -/
+theorem code_nodeValue (str : X Rat → String) (n : Py.Node) :
+    ∃ σ, Gen.Code.Node_value.run str n {} = .ok σ ∧ σ.ret = some (NodeText.value str n) :=
+  CodeW5Z.code_nodeValue str n
+
+/-- **Tie A (code → model).**  `Node.prefix(node)` (recursive; the bound on the depth is never exhausted). -/
+theorem code_nodePrefix (str : X Rat → String) (self : Py.Node) (node : Option Py.Node) :
+    ∃ σ, Gen.Code.Node_prefix.run str self node {} = .ok σ ∧ σ.ret = some (NodeText.pfxText str (node.getD self)) :=
+  CodeW5Z.code_nodePrefix str self node
+
+/-- **Tie A (code → model).**  `Node.infix(node)`: a function element is written `name ( children )` (no comma between
+    two children), an operator before its only child or between its two children. -/
+theorem code_nodeInfix (str : X Rat → String) (self : Py.Node) (node : Option Py.Node) :
+    ∃ σ, Gen.Code.Node_infix.run str self node {} = .ok σ ∧ σ.ret = some (NodeText.infText str (node.getD self)) :=
+  CodeW5Z.code_nodeInfix str self node
+
+/-- **Tie A (code → model).**  `Node.postfix(node)`. -/
+theorem code_nodePostfix (str : X Rat → String) (self : Py.Node) (node : Option Py.Node) :
+    ∃ σ, Gen.Code.Node_postfix.run str self node {} = .ok σ ∧ σ.ret = some (NodeText.postText str (node.getD self)) :=
+  CodeW5Z.code_nodePostfix str self node
+
+/-- **The tree keeps the formula.**  For every tree `e` that the stack machine of `Function.parse` builds from a postfix
+    token list `q` (no empty token: the tokens of a `split()`; a table without elements of arity 3 or more,
+    `table_wellFormed`), `Node.postfix` of the tree is `" ".join(q)` token for token - where a token that `float()`
+    accepts is printed as a number (`1` comes back as `Op.str(1.0)`) and parentheses / commas (never emitted by
+    `infix_to_postfix`, skipped by the stack machine) are left out (`CodeW5Z.postToken`). -/
+theorem postfix_of_parse (tbl : Table) (hT : ∀ r ∈ tbl, r.2.2.1 ≤ 2) (str : X Rat → String) (q : List String)
+    (hq : ∀ s ∈ q, s ≠ "") (e : Expr) (h : parsePostfix tbl q = .ok e) :
+    NodeText.postText str e.toNode = Py.joinSp (q.filterMap (CodeW5Z.postToken tbl str)) :=
+  CodeW5Z.postfix_of_parse tbl hT str q hq e h
+
+/-- … and with the translated `Node.postfix`: the text the code returns for the tree of `Function.parse` -/
+theorem code_postfix_of_parse (tbl : Table) (hT : ∀ r ∈ tbl, r.2.2.1 ≤ 2) (str : X Rat → String) (q : List String)
+    (hq : ∀ s ∈ q, s ≠ "") (e : Expr) (h : parsePostfix tbl q = .ok e) :
+    ∃ σ, Gen.Code.Node_postfix.run str e.toNode none {} = .ok σ ∧
+      σ.ret = some (Py.joinSp (q.filterMap (CodeW5Z.postToken tbl str))) := by
+  obtain ⟨σ, h1, h2⟩ := CodeW5Z.code_nodePostfix str e.toNode none
+  exact ⟨σ, h1, by rw [h2, Option.getD_none, CodeW5Z.postfix_of_parse tbl hT str q hq e h]⟩
 
 /-! ### the factories (`fuzzylite/factory.py`, `Gen/CodeFactory.lean`)
 
